@@ -135,7 +135,7 @@ pub fn run(ctx: &Ctx) -> Report {
         "C10",
         "exploration",
         "generate_queries for every domain exponent e in 1..=64 x count menu {0,1,2,3,5,8,48} (and every count up to \
-         2*2^e+1 for e<=3: duplicates forced by pigeonhole) x transcript states {(0,0),(seed,0),(seed,7)}; \
+         2*2^e+1 for e<=3: duplicates forced by pigeonhole) x transcript states {(0,0),(seed,0),(seed,7)}, plus for every e in 4..=20 (24 thorough) the first digest whose 48 draws collide (found with the model); \
          queries_to_points for every index (e<=10) or all single-bit indices, their complements, 0, 2^e-1 (e<=64); \
          recorded proofs: verifier's indices vs the prover's log. Non-trivial: count>=2 draws or a point check; \
          distinct by (e,count,state) / (e,index set)",
@@ -164,6 +164,20 @@ pub fn run(ctx: &Ctx) -> Report {
                 cases.push((e, c, s));
             }
         }
+    }
+    // forced collisions beyond the pigeonhole range: for every domain exponent up to 20 (24 thorough) the first
+    // transcript digest 0, 1, 2, ... whose 48 draws repeat an index according to the reference model
+    let e_coll = if quick { 20 } else { 24 };
+    let forced: Vec<(u32, Felt)> = (4..=e_coll)
+        .into_par_iter()
+        .filter_map(|e| {
+            (0..2_000_000u64).map(fu).find(|d| ref_queries(*d, 0, 48, e).len() < 48).map(|d| (e, d))
+        })
+        .collect();
+    rep.extra.insert("forced_collision_exponents".into(), json!(forced.iter().map(|(e, _)| *e).collect::<Vec<_>>()));
+    for (e, d) in &forced {
+        states.push((*d, 0));
+        cases.push((*e, 48, states.len() - 1));
     }
     let res: Vec<((u32, u64, usize), (Vec<String>, Option<String>, Vec<Felt>))> =
         cases.par_iter().map(|&(e, c, s)| ((e, c, s), gen_case(states[s].0, states[s].1, c, e))).collect();
